@@ -223,6 +223,13 @@ impl Scenario for Cli {
                     spec_k.files = p.iter().map(|i| inp.spec.files[*i].clone()).collect();
                 }
             }
+            if !spec_k.extra.is_empty() {
+                let n = spec_k.extra.len();
+                spec_k.extra.rotate_left(k % n);
+                if k % 2 == 1 {
+                    spec_k.extra.reverse();
+                }
+            }
             spec_k.materialise(&sb.root());
             let cmds: Vec<Vec<&str>> = vec![
                 vec!["fixtures", "unused", &rootstr],
